@@ -18,7 +18,8 @@ class Style(object):
 
     def __init__(self, rng=None, shuffle=False, drop=(), blank=0,
                  crlf_headers=False, json_style='canonical',
-                 trailing_blank=0, extra=None, meta_line_endings=False):
+                 trailing_blank=0, extra=None, meta_line_endings=False,
+                 unpadded_blank=False):
         self.rng = rng
         self.shuffle = shuffle
         self.drop = set(drop)        # optional options a producer may omit
@@ -29,13 +30,16 @@ class Style(object):
         self.extra = extra           # callable(section_index, sid) -> pairs
         #: metadata headers carry the (common content) line_endings option
         self.meta_line_endings = meta_line_endings
+        #: blank lines of an indented preamble carry no indentation
+        #: (editors strip trailing whitespace)
+        self.unpadded_blank = unpadded_blank
 
     @property
     def canonical(self):
         return not (self.shuffle or self.drop or self.blank or
                     self.crlf_headers or self.json_style != 'canonical' or
                     self.trailing_blank or self.extra or
-                    self.meta_line_endings)
+                    self.meta_line_endings or self.unpadded_blank)
 
 
 CANON = Style()
@@ -60,14 +64,15 @@ def effective(own, inherited):
     return own if own else inherited
 
 
-def indent_bytes(data, nl, indent):
+def indent_bytes(data, nl, indent, skip_blank=False):
     if not indent:
         return data
     pad = b' ' * indent
-    return b''.join(pad + line for line in scan_split(data, nl))
+    return b''.join(line if (skip_blank and line == nl) else pad + line
+                    for line in scan_split(data, nl))
 
 
-def prepare_text(text, codec, line_endings, indent):
+def prepare_text(text, codec, line_endings, indent, skip_blank=False):
     """Encode text, append the BOM-free newline if missing, indent after
     encoding. Returns (bytes, kind, final_text, nl_bytes)."""
     kind = line_endings or detect_kind_text(text)
@@ -77,7 +82,7 @@ def prepare_text(text, codec, line_endings, indent):
     if not data.endswith(nlb):
         data += nlb
         final_text = text + NL[kind]
-    return indent_bytes(data, nlb, indent), kind, final_text, nlb
+    return indent_bytes(data, nlb, indent, skip_blank), kind, final_text, nlb
 
 
 def prepare_bytes(data, codec, line_endings):
@@ -141,11 +146,12 @@ def serialize(doc, style=CANON):
             nlb = newline_bytes(kind, None)
             if not raw_text.endswith(nlb):
                 raw_text += nlb
-            raw = indent_bytes(raw_text, nlb, indent)
+            raw = indent_bytes(raw_text, nlb, indent, style.unpadded_blank)
             final = raw_text
         else:
             raw, kind, final, nlb = prepare_text(pre['text'], codec, le,
-                                                 indent)
+                                                 indent,
+                                                 style.unpadded_blank)
         opts = [('encoding', pre.get('encoding')),
                 ('indent', indent),
                 ('length', len(raw)),
